@@ -398,142 +398,375 @@ theorem localPop_inv {l kept popped : List α} {n : Nat} (h : localPop l n = som
     · simp; omega
   case isFalse => simp at h
 
-/-- the loop over `to_send`: destinations and sizes of the shipped vectors, and what is left -/
-theorem ship_spec (cnt : Nat → Nat) {l k : List α} {ord : List Nat} {ms : List (Msg α)}
-    (h : ship cnt l ord = some (k, ms)) :
-    ms.map (·.dest) = ord ∧ ms.map (fun m => m.items.length) = ord.map cnt ∧
-    k.length + (ord.map cnt).sum = l.length ∧ l = k ++ ms.reverse.flatMap (·.items) := by
-  induction ord generalizing l k ms with
-  | nil =>
-    simp only [ship, Option.some.injEq, Prod.mk.injEq] at h
-    obtain ⟨rfl, rfl⟩ := h
-    simp
-  | cons t ts ih =>
-    simp only [ship] at h
+/-! ### the interleaving machine -/
+
+/-- everything the machine holds: local bags and messages in flight -/
+def Net.all (st : Net α) : List α := st.bags.flatten ++ st.flight.flatMap (·.items)
+
+/-- the three kinds of successful steps -/
+theorem Net.step_cases {st st' : Net α} {e : Ev} (h : st.step e = some st') :
+    (∃ s ds t n rest l kept popped, e = .act s ds ∧ st.todo[s]? = some (.pop t n :: rest) ∧ st.bags[s]? = some l ∧
+        localPop l n = some (kept, popped) ∧
+        st' = { bags := st.bags.set s kept, todo := st.todo.set s rest,
+                flight := st.flight ++ [{ dest := t, items := popped }] }) ∨
+    (∃ s ds rest l ms, e = .act s ds ∧ st.todo[s]? = some (.shuf :: rest) ∧ st.bags[s]? = some l ∧
+        shuffleMsgs l ds = some ms ∧
+        st' = { bags := st.bags.set s [], todo := st.todo.set s rest, flight := st.flight ++ ms }) ∨
+    (∃ k m, e = .recv k ∧ st.flight[k]? = some m ∧ m.dest < st.bags.length ∧
+        st' = { st with bags := st.bags.modify m.dest (· ++ m.items), flight := st.flight.eraseIdx k }) := by
+  cases e with
+  | act s ds =>
+    simp only [Net.step] at h
     split at h
-    case h_1 => simp at h
-    case h_2 kept popped hpop =>
-    cases hs : ship cnt kept ts with
-    | none => simp [hs] at h
-    | some p =>
-      obtain ⟨k', ms'⟩ := p
-      simp only [hs, Option.map_some, Option.some.injEq, Prod.mk.injEq] at h
-      obtain ⟨rfl, rfl⟩ := h
-      obtain ⟨e1, e2, e3, e4⟩ := ih hs
-      obtain ⟨_, p2, p3, p4⟩ := localPop_inv hpop
-      refine ⟨by simp [e1], by simp [e2, p3], ?_, ?_⟩
-      · simp only [List.map_cons, List.sum_cons]; omega
-      · rw [← p2, e4]; simp
+    next t n rest l ht hl =>
+      cases hp : localPop l n with
+      | none => simp [hp] at h
+      | some p =>
+        obtain ⟨kept, popped⟩ := p
+        simp only [hp, Option.map_some, Option.some.injEq] at h
+        exact Or.inl ⟨s, ds, t, n, rest, l, kept, popped, rfl, ht, hl, hp, h.symm⟩
+    next rest l ht hl =>
+      cases hp : shuffleMsgs l ds with
+      | none => simp [hp] at h
+      | some ms =>
+        simp only [hp, Option.map_some, Option.some.injEq] at h
+        exact Or.inr (Or.inl ⟨s, ds, rest, l, ms, rfl, ht, hl, hp, h.symm⟩)
+    · simp at h
+  | recv k =>
+    simp only [Net.step] at h
+    split at h
+    next m hm =>
+      split at h
+      next hd =>
+        simp only [Option.some.injEq] at h
+        exact Or.inr (Or.inr ⟨k, m, rfl, hm, hd, h.symm⟩)
+      · simp at h
+    · simp at h
 
-theorem ship_some (cnt : Nat → Nat) (l : List α) (ord : List Nat) (h : (ord.map cnt).sum ≤ l.length) :
-    ∃ k ms, ship cnt l ord = some (k, ms) := by
-  induction ord generalizing l with
-  | nil => exact ⟨l, [], rfl⟩
-  | cons t ts ih =>
-    simp only [List.map_cons, List.sum_cons] at h
-    have hn : cnt t ≤ l.length := by omega
-    simp only [ship, localPop, hn, if_true]
-    obtain ⟨k, ms, hk⟩ := ih (l.take (l.length - cnt t)) (by simp; omega)
-    exact ⟨k, _, by rw [hk]; rfl⟩
+theorem flatten_set_split (L : List (List α)) (s : Nat) (k p : List α) (h : L[s]? = some (k ++ p)) :
+    ((L.set s k).flatten ++ p).Perm L.flatten := by
+  induction L generalizing s with
+  | nil => simp at h
+  | cons l L ih =>
+    cases s with
+    | zero =>
+      simp only [List.getElem?_cons_zero, Option.some.injEq] at h
+      subst h
+      simp only [List.set_cons_zero, List.flatten_cons, List.append_assoc]
+      exact List.Perm.append_left k List.perm_append_comm
+    | succ s =>
+      simp only [List.getElem?_cons_succ] at h
+      simp only [List.set_cons_succ, List.flatten_cons, List.append_assoc]
+      exact List.Perm.append_left l (ih s h)
 
-/-- items received by `d` from a list of messages with known destinations and sizes -/
-theorem recv_of_maps (g : Nat → Nat) {ms : List (Msg α)} {ord : List Nat}
-    (h1 : ms.map (·.dest) = ord) (h2 : ms.map (fun m => m.items.length) = ord.map g) (d : Nat) :
-    recv ms d = ((ord.filter (fun t => t == d)).map g).sum := by
-  induction ms generalizing ord with
-  | nil => simp at h1; subst h1; rfl
-  | cons m ms ih =>
-    cases ord with
-    | nil => simp at h1
-    | cons t ts =>
-      simp only [List.map_cons, List.cons.injEq] at h1 h2
-      rw [recv_cons, ih h1.2 h2.2, List.filter_cons]
-      by_cases hd : t = d
-      · simp [h1.1, hd]; rw [h2.1, hd]
-      · simp [h1.1, hd]
-
-/-! ### allSome -/
-
-theorem allSome_eq_some {γ : Type} {L : List (Option γ)} {l : List γ} (h : allSome L = some l) :
-    L = l.map some := by
-  induction L generalizing l with
-  | nil => simp only [allSome, Option.some.injEq] at h; subst h; rfl
+theorem perm_cons_eraseIdx {γ : Type} (L : List γ) (k : Nat) (m : γ) (h : L[k]? = some m) :
+    L.Perm (m :: L.eraseIdx k) := by
+  induction L generalizing k with
+  | nil => simp at h
   | cons x xs ih =>
-    cases x with
-    | none => simp [allSome] at h
-    | some x =>
-      simp only [allSome] at h
-      cases hx : allSome xs with
-      | none => simp [hx] at h
-      | some l' =>
-        simp only [hx, Option.map_some, Option.some.injEq] at h
-        subst h
-        simp [ih hx]
+    cases k with
+    | zero =>
+      simp only [List.getElem?_cons_zero, Option.some.injEq] at h
+      subst h; simp
+    | succ k =>
+      simp only [List.getElem?_cons_succ] at h
+      simp only [List.eraseIdx_cons_succ]
+      exact (List.Perm.cons x (ih k h)).trans (List.Perm.swap m x _)
 
-theorem allSome_of_forall {γ : Type} (L : List (Option γ)) (h : ∀ x ∈ L, x.isSome) : ∃ l, allSome L = some l := by
-  induction L with
-  | nil => exact ⟨[], rfl⟩
+theorem zipWith_items (l : List α) (ds : List Nat) (h : ds.length = l.length) :
+    (List.zipWith (fun x d => ({ dest := d, items := [x] } : Msg α)) l ds).flatMap (·.items) = l := by
+  induction l generalizing ds with
+  | nil => simp
   | cons x xs ih =>
-    cases x with
-    | none => have := h none (by simp); simp at this
-    | some x =>
-      obtain ⟨l, hl⟩ := ih (fun y hy => h y (by simp [hy]))
-      exact ⟨x :: l, by simp [allSome, hl]⟩
+    cases ds with
+    | nil => simp at h
+    | cons d ds => simp [List.flatMap_cons, ih ds (by simpa using h)]
 
-theorem allSome_map_range {γ : Type} {f : Nat → Option γ} {n : Nat} {plan : List γ}
-    (h : allSome ((List.range n).map f) = some plan) :
-    plan.length = n ∧ ∀ r, r < n → f r = plan[r]? := by
-  have e := allSome_eq_some h
-  have hl : plan.length = n := by
-    have := congrArg List.length e; simp at this; omega
-  refine ⟨hl, ?_⟩
-  intro r hr
-  have := congrArg (fun L => L[r]?) e
-  simp only [List.getElem?_map, List.getElem?_range hr, Option.map_some] at this
-  cases hp : plan[r]? with
-  | none => rw [hp] at this; simp at this
-  | some p => rw [hp] at this; simpa using this
+theorem zipWith_dests (l : List α) (ds : List Nat) (h : ds.length = l.length) :
+    (List.zipWith (fun x d => ({ dest := d, items := [x] } : Msg α)) l ds).map (·.dest) = ds := by
+  induction l generalizing ds with
+  | nil => cases ds with
+    | nil => rfl
+    | cons d ds => simp at h
+  | cons x xs ih =>
+    cases ds with
+    | nil => simp at h
+    | cons d ds =>
+      simp only [List.zipWith_cons_cons, List.map_cons]
+      rw [ih ds (by simpa using h)]
 
-/-! ### one rank's part of rebalance -/
-
-theorem rebalanceRank_spec {tot ranks pre r : Nat} {l k : List α} {ord : List Nat} {ms : List (Msg α)}
-    (hr : 0 < ranks) (hrr : r < ranks) (hle : pre + l.length ≤ tot)
-    (h : rebalanceRank tot ranks pre r l ord = some (k, ms)) :
-    k.length = cntT tot ranks pre l.length r ∧
-    (∀ d, d < ranks → recv ms d = sendCount tot ranks pre l.length r d) ∧
-    l = k ++ ms.reverse.flatMap (·.items) ∧
-    (∀ m ∈ ms, m.dest < ranks) := by
-  unfold rebalanceRank at h
-  rw [no_traps tot ranks pre l.length hr hle] at h
-  simp only [Bool.false_eq_true, if_false] at h
+theorem shuffleMsgs_inv {l : List α} {ds : List Nat} {ms : List (Msg α)} (h : shuffleMsgs l ds = some ms) :
+    ms.flatMap (·.items) = l ∧ ms.map (·.dest) = ds ∧ ds.length = l.length := by
+  unfold shuffleMsgs at h
   split at h
-  case isFalse => simp at h
-  case isTrue hp =>
-  have hperm := List.isPerm_iff.mp hp
-  obtain ⟨e1, e2, e3, e4⟩ := ship_spec _ h
-  have hsum : (ord.map (sendCount tot ranks pre l.length r)).sum =
-      ((List.range ranks).map (sendCount tot ranks pre l.length r)).sum := by
-    rw [(hperm.map _).sum_nat, sum_sendKeys]
-  have htot := sum_sendCount tot ranks pre l.length r hr hrr hle
-  refine ⟨by omega, ?_, e4, ?_⟩
-  · intro d hd
-    rw [recv_of_maps _ e1 e2 d, ((hperm.filter _).map _).sum_nat, sum_sendKeys_at _ _ _ _ _ _ hd]
-  · intro m hm
-    have : m.dest ∈ ord := by rw [← e1]; exact List.mem_map_of_mem hm
-    have := hperm.mem_iff.mp this
-    unfold sendKeys at this
-    exact List.mem_range.mp (List.mem_filter.mp this).1
+  next hl =>
+    simp only [Option.some.injEq] at h
+    subst h
+    exact ⟨zipWith_items l ds hl, zipWith_dests l ds hl, hl⟩
+  · simp at h
 
-theorem rebalanceRank_some {tot ranks pre r : Nat} (l : List α) {ord : List Nat}
-    (hr : 0 < ranks) (hrr : r < ranks) (hle : pre + l.length ≤ tot)
-    (hp : ord.Perm (sendKeys tot ranks pre l.length r)) :
-    ∃ k ms, rebalanceRank tot ranks pre r l ord = some (k, ms) := by
-  unfold rebalanceRank
-  rw [no_traps tot ranks pre l.length hr hle]
-  simp only [Bool.false_eq_true, if_false, List.isPerm_iff.mpr hp, if_true]
-  apply ship_some
-  rw [(hp.map _).sum_nat, sum_sendKeys]
-  have := sum_sendCount tot ranks pre l.length r hr hrr hle
+/-- **conservation, one step**: no event loses, duplicates or invents an item -/
+theorem Net.step_conserved {st st' : Net α} {e : Ev} (h : st.step e = some st') :
+    st'.all.Perm st.all ∧ st'.bags.length = st.bags.length ∧ st'.todo.length = st.todo.length := by
+  rcases Net.step_cases h with ⟨s, ds, t, n, rest, l, kept, popped, _, _, hl, hp, rfl⟩ |
+    ⟨s, ds, rest, l, ms, _, _, hl, hp, rfl⟩ | ⟨k, m, _, hm, hd, rfl⟩
+  · obtain ⟨_, p2, _, _⟩ := localPop_inv hp
+    refine ⟨?_, by simp, by simp⟩
+    simp only [Net.all, List.flatMap_append, List.flatMap_cons, List.flatMap_nil, List.append_nil]
+    rw [← p2] at hl
+    have := flatten_set_split st.bags s kept popped hl
+    -- (F' ++ (M ++ p)) ~ (F ++ M)
+    refine (List.perm_append_comm_assoc _ _ _).trans ?_
+    refine (List.Perm.append_left _ this).trans ?_
+    exact List.perm_append_comm
+  · obtain ⟨e1, _, _⟩ := shuffleMsgs_inv hp
+    refine ⟨?_, by simp, by simp⟩
+    simp only [Net.all, List.flatMap_append]
+    rw [e1]
+    have := flatten_set_split st.bags s [] l (by simpa using hl)
+    refine (List.perm_append_comm_assoc _ _ _).trans ?_
+    refine (List.Perm.append_left _ this).trans ?_
+    exact List.perm_append_comm
+  · refine ⟨?_, by simp, rfl⟩
+    simp only [Net.all]
+    have h1 := flatten_modify_append st.bags m.dest m.items hd
+    have h2 : (st.flight.flatMap (·.items)).Perm (m.items ++ (st.flight.eraseIdx k).flatMap (·.items)) := by
+      have := (perm_cons_eraseIdx st.flight k m hm).flatMap_right (·.items)
+      simpa [List.flatMap_cons] using this
+    refine (List.Perm.append_right _ h1).trans ?_
+    rw [List.append_assoc]
+    exact List.Perm.append_left _ h2.symm
+
+theorem Net.run_conserved {st st' : Net α} {evs : List Ev} (h : st.run evs = some st') :
+    st'.all.Perm st.all ∧ st'.bags.length = st.bags.length ∧ st'.todo.length = st.todo.length := by
+  induction evs generalizing st with
+  | nil => simp only [Net.run, Option.some.injEq] at h; subst h; exact ⟨List.Perm.refl _, rfl, rfl⟩
+  | cons e es ih =>
+    simp only [Net.run] at h
+    cases h1 : st.step e with
+    | none => simp [h1] at h
+    | some st1 =>
+      simp only [h1, Option.bind_some] at h
+      have a := Net.step_conserved h1
+      have b := ih h
+      exact ⟨b.1.trans a.1, by omega, by omega⟩
+
+theorem Net.done_inv {st : Net α} (h : st.done = true) : st.flight = [] ∧ ∀ l ∈ st.todo, l = [] := by
+  unfold Net.done at h
+  simp only [Bool.and_eq_true, List.all_eq_true, List.isEmpty_iff] at h
+  exact ⟨h.2, h.1⟩
+
+/-! ### the counting invariant of `rebalance` under arbitrary interleavings -/
+
+def owedAt (r : Nat) (l : List Act) : Nat := ((l.filter (Act.goesTo r)).map Act.size).sum
+def needOf (l : List Act) : Nat := (l.map Act.size).sum
+/-- what rank `r` still has to pop -/
+def Net.need (st : Net α) (r : Nat) : Nat := needOf (st.todo.getD r [])
+/-- what other ranks still have to pop for `r` -/
+def Net.owed (st : Net α) (r : Nat) : Nat :=
+  ((List.range st.todo.length).map (fun s => owedAt r (st.todo.getD s []))).sum
+/-- held + in flight towards `r` + still to be popped for `r` -/
+def Net.load (st : Net α) (r : Nat) : Nat := (st.bags.getD r []).length + recv st.flight r + st.owed r
+
+structure RInv (target : Nat → Nat) (st : Net α) : Prop where
+  len : st.todo.length = st.bags.length
+  pops : ∀ l ∈ st.todo, ∀ a ∈ l, a.isPop = true
+  bal : ∀ r, r < st.bags.length → st.load r = target r + st.need r
+  room : ∀ s, st.need s ≤ (st.bags.getD s []).length
+  fdest : ∀ m ∈ st.flight, m.dest < st.bags.length
+  tdest : ∀ l ∈ st.todo, ∀ a ∈ l, ∀ t n, a = Act.pop t n → t < st.bags.length
+
+theorem getD_set {β : Type} (L : List β) (s i : Nat) (x d : β) :
+    (L.set s x).getD i d = if i = s ∧ s < L.length then x else L.getD i d := by
+  simp only [List.getD_eq_getElem?_getD, List.getElem?_set]
+  by_cases h : s = i
+  · subst h
+    by_cases hl : s < L.length
+    · simp [hl]
+    · simp [hl, List.getElem?_eq_none (Nat.le_of_not_lt hl)]
+  · have : ¬ (i = s) := fun e => h e.symm
+    simp [h, this]
+
+theorem sum_range_set {β : Type} (L : List β) (s : Nat) (x d : β) (g : β → Nat) (hs : s < L.length) :
+    ((List.range L.length).map (fun i => g ((L.set s x).getD i d))).sum + g (L.getD s d) =
+      ((List.range L.length).map (fun i => g (L.getD i d))).sum + g x := by
+  have e1 : (List.range L.length).map (fun i => g ((L.set s x).getD i d) + (if i = s then g (L.getD s d) else 0)) =
+      (List.range L.length).map (fun i => g (L.getD i d) + (if i = s then g x else 0)) := by
+    apply List.map_congr_left
+    intro i _
+    rw [getD_set]
+    by_cases h : i = s
+    · subst h; simp [hs]; omega
+    · simp [h]
+  have e2 := congrArg List.sum e1
+  rw [sum_map_add, sum_map_add, sum_indicator, sum_indicator] at e2
+  simpa [hs] using e2
+
+theorem recv_singleton (m : Msg α) (r : Nat) : recv [m] r = if m.dest = r then m.items.length else 0 := by
+  rw [recv_cons, recv_nil]; simp
+
+theorem RInv.step {target : Nat → Nat} {st st' : Net α} {e : Ev} (hi : RInv target st) (h : st.step e = some st') :
+    RInv target st' := by
+  rcases Net.step_cases h with ⟨s, ds, t, n, rest, l, kept, popped, _, ht, hl, hp, rfl⟩ |
+    ⟨s, ds, rest, l, ms, _, ht, _, _, _⟩ | ⟨k, m, _, hm, hd, rfl⟩
+  · -- rank s pops n items for t
+    obtain ⟨hn, p2, p3, p4⟩ := localPop_inv hp
+    have hs : s < st.todo.length := (List.getElem?_eq_some_iff.mp ht).1
+    have hsb : s < st.bags.length := (List.getElem?_eq_some_iff.mp hl).1
+    have htodo : st.todo.getD s [] = Act.pop t n :: rest := by
+      simp [List.getD_eq_getElem?_getD, ht]
+    have hbag : st.bags.getD s [] = l := by simp [List.getD_eq_getElem?_getD, hl]
+    have hmem : (Act.pop t n :: rest) ∈ st.todo := List.mem_of_getElem? ht
+    have hneed : ∀ r, needOf (st.todo.getD r []) =
+        needOf ((st.todo.set s rest).getD r []) + (if r = s then n else 0) := by
+      intro r
+      rw [getD_set]
+      by_cases hr : r = s
+      · subst hr
+        rw [if_pos ⟨rfl, hs⟩, htodo, if_pos rfl]
+        simp only [needOf, List.map_cons, List.sum_cons, Act.size]; omega
+      · rw [if_neg (fun h => hr h.1), if_neg hr]; rfl
+    have howed : ∀ r, ((List.range st.todo.length).map (fun i => owedAt r (st.todo.getD i []))).sum =
+        ((List.range st.todo.length).map (fun i => owedAt r ((st.todo.set s rest).getD i []))).sum +
+          (if t = r then n else 0) := by
+      intro r
+      have := sum_range_set st.todo s rest [] (owedAt r) hs
+      rw [htodo] at this
+      have e : owedAt r (Act.pop t n :: rest) = owedAt r rest + (if t = r then n else 0) := by
+        unfold owedAt
+        rw [List.filter_cons]
+        by_cases htr : t = r
+        · simp [Act.goesTo, htr, Act.size]; omega
+        · simp [Act.goesTo, htr]
+      omega
+    refine ⟨by simpa using hi.len, ?_, ?_, ?_, ?_, ?_⟩
+    · intro l' hl' a ha
+      rcases List.mem_or_eq_of_mem_set hl' with h1 | h1
+      · exact hi.pops l' h1 a ha
+      · subst h1; exact hi.pops _ hmem a (List.mem_cons_of_mem _ ha)
+    · intro r hr
+      have hr' : r < st.bags.length := by simpa using hr
+      have hb := hi.bal r hr'
+      have h1 := hneed r
+      have h2 := howed r
+      simp only [Net.load, Net.owed, Net.need, List.length_set] at hb ⊢
+      rw [recv_append, recv_singleton, getD_set]
+      simp only []
+      by_cases hrs : r = s
+      · subst hrs
+        rw [if_pos rfl] at h1
+        rw [if_pos ⟨rfl, hsb⟩]
+        rw [hbag] at hb
+        by_cases htr : t = r
+        · rw [if_pos htr] at h2 ⊢; omega
+        · rw [if_neg htr] at h2 ⊢; omega
+      · rw [if_neg hrs] at h1
+        rw [if_neg (fun h => hrs h.1)]
+        by_cases htr : t = r
+        · rw [if_pos htr] at h2 ⊢; omega
+        · rw [if_neg htr] at h2 ⊢; omega
+    · intro r
+      have h1 := hneed r
+      have hro := hi.room r
+      simp only [Net.need] at hro ⊢
+      rw [getD_set st.bags]
+      by_cases hrs : r = s
+      · subst hrs
+        rw [if_pos rfl] at h1
+        rw [if_pos ⟨rfl, hsb⟩]
+        rw [hbag] at hro; omega
+      · rw [if_neg hrs] at h1
+        rw [if_neg (fun h => hrs h.1)]; omega
+    · intro m hm
+      simp only [List.length_set]
+      rcases List.mem_append.mp hm with h1 | h1
+      · exact hi.fdest m h1
+      · simp only [List.mem_singleton] at h1
+        subst h1
+        exact hi.tdest _ hmem _ (List.mem_cons_self) t n rfl
+    · intro l' hl' a ha t' n' hat
+      simp only [List.length_set]
+      rcases List.mem_or_eq_of_mem_set hl' with h1 | h1
+      · exact hi.tdest l' h1 a ha t' n' hat
+      · subst h1; exact hi.tdest _ hmem a (List.mem_cons_of_mem _ ha) t' n' hat
+  · -- no shuffle actions in a rebalance
+    have hmem : (Act.shuf :: rest) ∈ st.todo := List.mem_of_getElem? ht
+    have := hi.pops _ hmem Act.shuf List.mem_cons_self
+    simp [Act.isPop] at this
+  · -- a shipped vector is executed
+    have hperm := perm_cons_eraseIdx st.flight k m hm
+    refine ⟨by simpa using hi.len, hi.pops, ?_, ?_, ?_, ?_⟩
+    · intro r hr
+      have hr' : r < st.bags.length := by simpa using hr
+      have hb := hi.bal r hr'
+      simp only [Net.load, Net.owed, Net.need] at hb ⊢
+      rw [length_getD_modify_append]
+      have := recv_perm hperm r
+      rw [recv_cons] at this
+      by_cases hmr : m.dest = r
+      · simp only [hmr, hr', and_self, if_true] at this ⊢; omega
+      · simp only [hmr, false_and, if_false] at this ⊢; omega
+    · intro s
+      have := hi.room s
+      simp only [Net.need] at this ⊢
+      rw [length_getD_modify_append]; omega
+    · intro x hx
+      simp only [List.length_modify]
+      exact hi.fdest x (List.mem_of_mem_eraseIdx hx)
+    · intro l' hl' a ha t' n' hat
+      simp only [List.length_modify]
+      exact hi.tdest l' hl' a ha t' n' hat
+
+theorem RInv.run {target : Nat → Nat} {st st' : Net α} {evs : List Ev} (hi : RInv target st)
+    (h : st.run evs = some st') : RInv target st' := by
+  induction evs generalizing st with
+  | nil => simp only [Net.run, Option.some.injEq] at h; subst h; exact hi
+  | cons e es ih =>
+    simp only [Net.run] at h
+    cases h1 : st.step e with
+    | none => simp [h1] at h
+    | some st1 =>
+      simp only [h1, Option.bind_some] at h
+      exact ih (hi.step h1) h
+
+/-- when everything is done, every rank holds its target -/
+theorem RInv.final {target : Nat → Nat} {st : Net α} (hi : RInv target st) (hd : st.done = true) (r : Nat)
+    (hr : r < st.bags.length) : (st.bags.getD r []).length = target r := by
+  obtain ⟨hf, ht⟩ := Net.done_inv hd
+  have hb := hi.bal r hr
+  have hall : ∀ s, st.todo.getD s [] = [] := by
+    intro s
+    rw [List.getD_eq_getElem?_getD]
+    cases hs : st.todo[s]? with
+    | none => rfl
+    | some l => exact ht l (List.mem_of_getElem? hs)
+  simp only [Net.load, Net.owed, Net.need, hf, recv_nil, hall, needOf, owedAt] at hb
+  simp only [List.filter_nil, List.map_nil, List.sum_nil] at hb
+  rw [sum_map_zero] at hb
   omega
+
+/-- **no abort in any interleaving**: in a state satisfying the invariant every enabled event succeeds
+(`local_pop`'s assertion holds, the destination is a rank of the communicator) -/
+theorem RInv.progress {target : Nat → Nat} {st : Net α} (hi : RInv target st) :
+    (∀ s ds a rest, st.todo[s]? = some (a :: rest) → (st.step (.act s ds)).isSome = true) ∧
+    (∀ k, k < st.flight.length → (st.step (.recv k)).isSome = true) := by
+  constructor
+  · intro s ds a rest ht
+    have hs : s < st.todo.length := (List.getElem?_eq_some_iff.mp ht).1
+    have hsb : s < st.bags.length := by rw [← hi.len]; exact hs
+    have hmem : (a :: rest) ∈ st.todo := List.mem_of_getElem? ht
+    have hpop := hi.pops _ hmem a List.mem_cons_self
+    cases a with
+    | shuf => simp [Act.isPop] at hpop
+    | pop t n =>
+      have hroom := hi.room s
+      simp only [Net.need, List.getD_eq_getElem?_getD, ht, Option.getD_some, needOf, List.map_cons, List.sum_cons,
+        Act.size, List.getElem?_eq_getElem hsb] at hroom
+      simp only [Net.step, ht, List.getElem?_eq_getElem hsb]
+      have : n ≤ (st.bags[s]).length := by omega
+      simp [localPop, this]
+  · intro k hk
+    have hm := hi.fdest st.flight[k] (List.getElem_mem hk)
+    simp [Net.step, List.getElem?_eq_getElem hk, hm]
 
 end YgmVerif.BagOps
